@@ -20,14 +20,23 @@ const (
 	ModeControlled
 )
 
+// Returns the description of the door control state, or an empty string for an
+// unknown/invalid state (e.g. an out-of-range value in a controller reply).
 func (v ControlState) String() string {
-	return [...]string{"", "normally open", "normally closed", "controlled"}[v]
+	switch v {
+	case NormallyOpen:
+		return "normally open"
+	case NormallyClosed:
+		return "normally closed"
+	case Controlled:
+		return "controlled"
+	}
+
+	return ""
 }
 
 func (v ControlState) MarshalJSON() ([]byte, error) {
-	s := [...]string{"", "normally open", "normally closed", "controlled"}[v]
-
-	return json.Marshal(s)
+	return json.Marshal(v.String())
 }
 
 func (v *ControlState) UnmarshalJSON(b []byte) error {
